@@ -375,6 +375,30 @@ def run(index, rep, tier):
         rep.check(bool(revs), "R18.15", tm_.qualname, "the reverse mapping is no longer built here", fn_where(tm_), "apply_mapping_fn builds the reverse mapping (%d writes)" % len(revs),
                   "TaxonNamespaceMapping.apply_mapping_fn no longer writes `self.reverse`")
 
+    # ---- R18.16 a population size is any positive number
+    with rep.section("R18.16"):
+        rep.rule("R18.16", "a population size is any positive number: the coalescent routines scale waiting times by pop_size and never refuse one - no test that leads to a raise compares `pop_size` (or a per-edge `pop_size` read off the tree) by order with a positive constant; haploid sizes below 1 (times in units of generations on a rescaled tree) are as valid as 10000")
+        n16 = 0
+        for mod in ("dendropy.model.coalescent", "dendropy.simulate.treesim", "dendropy.model.reconcile"):
+            if mod not in index.modules:
+                continue
+            for f in index.functions_in_module(mod):
+                g = cfg_of(f)
+                for nd in g.nodes:
+                    if nd.kind != "test" or not isinstance(nd.ast, ast.Compare) or len(nd.ast.ops) != 1 or not isinstance(nd.ast.ops[0], (ast.Lt, ast.LtE, ast.Gt, ast.GtE)):
+                        continue
+                    sides = [nd.ast.left, nd.ast.comparators[0]]
+                    ps = [s_ for s_ in sides if (isinstance(s_, ast.Name) and "pop_size" in s_.id) or (isinstance(s_, ast.Attribute) and "pop_size" in s_.attr)]
+                    cs = [s_ for s_ in sides if isinstance(s_, ast.Constant) and isinstance(s_.value, (int, float)) and not isinstance(s_.value, bool)]
+                    if len(ps) != 1 or len(cs) != 1:
+                        continue
+                    n16 += 1
+                    refuses = (raises_in_branch(g, nd, "t") is not None or raises_in_branch(g, nd, "f") is not None) and cs[0].value > 0
+                    rep.check(not refuses, "R18.16", f.qualname, "population size refused: " + norm(nd.ast)[:40], fn_where(f, nd.stmt), "%s: `%s` refuses no positive size" % (f.name, norm(nd.ast)[:40]),
+                              "%s raises on `%s`: every positive population size is valid input - with this test pure_kingman_tree / contained_coalescent_tree / constrained_kingman_tree return no tree at all for a size between 0 and 1 as soon as two lineages share a population" % (f.qualname, norm(nd.ast)[:50]))
+        ttc = index.function("dendropy.model.coalescent.time_to_coalescence")
+        rep.ob("R18.16", ttc.qualname, "%d ordering comparisons of a population size with a constant examined" % n16, fn_where(ttc))
+
 
 def _distinct_labels_rule(index, rep):
     """R18.3: `require_taxon(label=L)` returns an *existing* taxon when the label is taken, so a
